@@ -682,7 +682,13 @@ CHECKS["C05"]["text"] = CHECKS["C05"]["text"].rstrip() + (
     "mergeSafe_of_silent from the silent MEMOISED overlap search /repo runs (C06's rule_overlapping_fields_memo_iff_wf) plus the clauses of seven "
     "other silent rules, and accepted_cannot_go_wrong_merged: all 26 rule visitors silent (C06.SilentM) => no internal exception, without MergeSafe. "
     "parsed_names_nonempty / lexed_names_nonempty: fragment names, aliases, field and spread names of parse(text) (lexer model + parser model, all "
-    "flags) are non-empty. Named probes for two outside reports (corr/C04_hunt1.py is C04's; C05-1 of the hunter is C17's documented refusal).")
+    "flags) are non-empty. accepted_cannot_go_wrong_merged_executed / accepted_cannot_go_wrong_computable: the same about the description the driver "
+    "executes, every hypothesis except WorldTyped a computable check (schemaChecksB, fieldOwnersB, docChecksB = wfIdsB + noMetaSubsB + aliasesB + "
+    "non-empty fragment names + noIntrospectionB, each with a soundness lemma). The translation eDoc (validator-side document -> executor-side "
+    "document) on which the whole chain is stated is now a model file (ExecOfValidate.lean) and the driver op `edoc` checks, for every accepted "
+    "document, that eDoc of the validator-side JSON IS the document the driver executes (field locations apart) and that docChecksB holds. New fixed "
+    "class lookalike-member (a fragment on an interface must not apply to a union member with a same-named field that does not implement it: "
+    "mutation M4 had been missed by C04 and C05). C05-1 of the hunter is C17's documented refusal (nothing added).")
 _add("C04", "named probes of two outside reports (corr/C04_hunt1.py, no randomness): exponential fragment expansion in the executor's collect_fields "
             "(node multiplicity 2**n at n = 6, 9, 12 on a validated document with ONE field node) and `@skip(if: true)` next to an `@include` that cannot "
             "be coerced (field / inline fragment / spread, both executors).",
